@@ -14,5 +14,5 @@ python3 bmsa/facts.py default all-features >/dev/null 2>$SCR/extract.err || { ec
 echo $PROPS | tr ' ' '\n' | BMSA_EVIDENCE_DIR=$SCR xargs -P 8 -I{} sh -c './bin/check {} --tier quick > '$SCR'/{}.out 2>&1; echo "{} rc=$?"' | sort | tr '\n' ' '
 echo
 for p in $PROPS; do grep -A1 "^VIOLATION" $SCR/$p.out | grep "rule=" | sed "s/^/  $p:/" | cut -c1-260 | head -4; done
-git -C /repo checkout -- .
+git -C /repo checkout -- . && git -C /repo clean -fdq --exclude=target
 rm -rf $SCR
